@@ -50,7 +50,7 @@ def tokens1(t1: str) -> bool:
     pre: all(c in ALPHA for c in t1)
     post: _
     """
-    return _check(pfmt.SKELS[PART["skel"]], [t1])
+    return _check(pfmt.SKELS_ALL[PART["skel"]], [t1])
 
 
 def tokens2(t1: str, t2: str) -> bool:
@@ -59,7 +59,7 @@ def tokens2(t1: str, t2: str) -> bool:
     pre: all(c in ALPHA for c in t1) and all(c in ALPHA for c in t2)
     post: _
     """
-    return _check(pfmt.SKELS[PART["skel"]], [t1, t2])
+    return _check(pfmt.SKELS_ALL[PART["skel"]], [t1, t2])
 
 
 def tokens3(t1: str, t2: str, t3: str) -> bool:
@@ -68,7 +68,7 @@ def tokens3(t1: str, t2: str, t3: str) -> bool:
     pre: all(c in ALPHA for c in t1) and all(c in ALPHA for c in t2) and all(c in ALPHA for c in t3)
     post: _
     """
-    return _check(pfmt.SKELS[PART["skel"]], [t1, t2, t3])
+    return _check(pfmt.SKELS_ALL[PART["skel"]], [t1, t2, t3])
 
 
 GENERIC = ["", "-", "--", "null", "-1", "x"]
@@ -104,9 +104,10 @@ def menu3(k2: int, k3: int) -> bool:
     pre: 0 <= k2 < PART["n"] and 0 <= k3 < PART["n"]
     post: _
     """
-    skel = pfmt.SKELS[PART["skel"]]
+    skel = pfmt.SKELS_ALL[PART["skel"]]
     menu = menu_for(skel, PART["full"])
-    return _check(skel, [menu[PART["k1"]], _pick(menu, k2), _pick(menu, k3)])
+    from vf.sym import untraced
+    return untraced(_check, skel, [menu[PART["k1"]], _pick(menu, k2), _pick(menu, k3)])      # the picked literals are concrete: the parser runs with the tracer off
 
 
 def tokens_twin(t1: str, t2: str) -> bool:
@@ -167,7 +168,7 @@ def conditions(tier):
     quick = tier == "quick"
     t = 90 if quick else 600
     conds = []
-    skels = sorted(pfmt.SKELS)
+    skels = sorted(pfmt.SKELS) + sorted(pfmt.SKELS_NATIVE)
     for sk in skels:
         for l1 in range(0, 4):
             conds.append({"name": "tokens1[%s,%d]" % (sk, l1), "fn": tokens1, "timeout": t, "part": {"skel": sk, "l1": l1},
@@ -175,6 +176,8 @@ def conditions(tier):
         lens2 = [(a, b) for a in range(0, 3) for b in range(0, 3)] if quick else [(a, b) for a in range(0, 4) for b in range(0, 3)]
         if quick and sk not in ("S1", "S2", "S6"):
             lens2 = [(2, 1), (2, 2)]
+        if sk in pfmt.SKELS_NATIVE:
+            lens2 = []
         for l1, l2 in lens2:
             conds.append({"name": "tokens2[%s,%d,%d]" % (sk, l1, l2), "fn": tokens2, "timeout": t, "part": {"skel": sk, "l1": l1, "l2": l2},
                           "bounds": "format %s, two tokens of lengths %d,%d" % (sk, l1, l2)})
@@ -183,8 +186,8 @@ def conditions(tier):
                 conds.append({"name": "tokens3[%s,%d,%d,%d]" % (sk, l1, l2, l3), "fn": tokens3, "timeout": t, "part": {"skel": sk, "l1": l1, "l2": l2, "l3": l3},
                               "bounds": "format %s, three tokens of lengths %d,%d,%d" % (sk, l1, l2, l3)})
         full = (not quick) and sk in ("S1", "S2", "S3", "S4")
-        menu = menu_for(pfmt.SKELS[sk], full)
-        for k1 in (range(len(menu)) if (not quick or sk in ("S1", "S2", "S4", "S7")) else []):
+        menu = menu_for(pfmt.SKELS_ALL[sk], full)
+        for k1 in (range(len(menu)) if (not quick or sk in ("S1", "S2", "S4", "S7", "S11", "S12")) else []):
             conds.append({"name": "menu3[%s,%r]" % (sk, menu[k1]), "fn": menu3, "timeout": t, "part": {"skel": sk, "k1": k1, "n": len(menu), "full": full},
                           "bounds": "format %s, first token %r, second and third token any of the %d menu literals %r" % (sk, menu[k1], len(menu), menu)})
     conds.append({"name": "tokens_twin", "fn": tokens_twin, "timeout": t, "expect": "refute", "part": {"skel": "S1"}, "bounds": "reachability twin"})
